@@ -1,4 +1,5 @@
 """C12 frequent items: purge-amount conservation chain, bound algebra, filter pairing, merge bookkeeping, probe displacement."""
+import astu
 from astu import C, ctxt, gt_pair, eq_const, reach, reach_txt, ctext, strip, strip_all, walk, walkp, txt, short, is_this_field, field_name, stmts_of, always_throws, functions_by, local_decls
 from vlib.core import ob
 
@@ -323,7 +324,8 @@ def probe_masks(facts):
                             out.append(ob("fi.mask", key, x.get("loc", fn["pat"]), "discharged", "index & ((1 << lg_cur_size_) - 1)", fn["qname"]))
                         else:
                             out.append(ob("fi.mask", key, x.get("loc", fn["pat"]), "violated", "probe index is masked with `%s`, not with the current table size: while lg_cur_size_ < lg_max_size_ the probe sequence leaves the arrays (tracked items are not found: lower bound, estimate and upper bound read 0; out-of-bounds reads)" % t, fn["qname"]))
-        walk(fn["body"], v)
+        with astu.with_getters(fs):      # `index_mask()` reads as `(1 << lg_cur_size_) - 1`
+            walk(fn["body"], v)
     if n < 5:
         out.append(ob("fi.mask", "anchor", "", "unrecognised", "only %d probe masks found" % n, ""))
     return out
